@@ -389,7 +389,139 @@ def _concrete_difference(pa, pb, trials=12):
   return None
 
 
-CASES = {'config': ConfigCase(), 'synonym': SynonymCase()}
+def premade_bad(spec):
+  """Malformed premade configurations (from the docstrings of premade_lib.verify_config and helpers)."""
+  why = []
+  m = spec.get('model', {})
+  feats = spec['features']
+  if spec.get('no_features'):
+    why.append('feature_configs None')
+  oi = m.get('output_initialization', 'quantiles')
+  if not isinstance(oi, list) or any(not isinstance(v, (int, float)) for v in oi):
+    why.append('output_initialization not numeric list')
+  for f in feats:
+    if f['kind'] == 'num':
+      kp = f.get('keypoints', [0.0, 1.0, 2.0])
+      if not isinstance(kp, list) or any(not isinstance(v, (int, float)) for v in kp):
+        why.append('keypoints not specified')
+    else:
+      pairs = f.get('raw_monotonicity', f.get('pairs') or None)
+      if pairs and pairs != 'none':
+        if not isinstance(pairs, list):
+          why.append('categorical monotonicity not a list')
+        else:
+          for t in pairs:
+            if not isinstance(t, list):
+              why.append('categorical pair not a list')
+            else:
+              for v in t:
+                if not isinstance(v, int):
+                  why.append('categorical pair entry not an index')
+                elif v < 0 or v >= f['buckets']:
+                  why.append('categorical pair index out of range')
+  special = any(f.get('unimodality') or f.get('trust') or f.get('dominates') for f in feats)
+  sizes = {f.get('lattice_size', 2) for f in feats}
+  if spec['kind'] == 'ensemble':
+    lat = m.get('lattices')
+    if lat == 'rtl_layer':
+      if m.get('num_lattices') is None:
+        why.append('rtl without num_lattices')
+      elif m['num_lattices'] < 2:
+        why.append('fewer than two lattices')
+      if len(sizes) > 1:
+        why.append('rtl with different lattice sizes')
+      if special:
+        why.append('rtl with unimodality / trust / dominance')
+    elif isinstance(lat, list):
+      if len(lat) < 2:
+        why.append('fewer than two lattices')
+      elif any(not isinstance(l, (list, str)) or any(not isinstance(x, str) for x in l) for l in lat):
+        why.append('lattices not iterables of names')   # a plain string is an iterable of one-letter names
+    else:
+      why.append('lattices not specified')
+  if spec['kind'] in ('ensemble', 'lattice') and m.get('parameterization') == 'kronecker_factored':
+    if len(sizes) > 1:
+      why.append('kfl with different lattice sizes')
+    if special:
+      why.append('kfl with unimodality / trust / dominance')
+  return why
+
+
+class PremadeConfigCase(Case):
+  """Malformed premade configurations raise ValueError when the model is constructed; the others build
+  (real verify_config and builders; layer calls under the abstract contracts of C03)."""
+  contract_key = None
+  xcheck = False
+
+  def body(self, cfg, c):
+    import props.C03 as C03
+    spec = cfg['spec']
+    why = premade_bad(spec)
+    raised = None
+    try:
+      self._build(C03, spec, c)
+    except ValueError as e:
+      raised = e
+    except (TypeError, KeyError, IndexError, AttributeError, AssertionError) as e:
+      if isinstance(e, (tfc.NoContract, E.SymbolicValueError)):
+        raise
+      return [('only-ValueError-is-raised: got %s: %s' % (type(e).__name__, str(e)[:80]), E.FALSE)]
+    cl = [('only-ValueError-is-raised', E.TRUE)]
+    if why:
+      cl.append(('malformed-premade-config-is-rejected:%s' % why[0], B.const(raised is not None)))
+    elif raised is not None:
+      cl.append(('rejected-up-front (not in the listed kinds: %s)' % str(raised)[:60], E.TRUE))
+    else:
+      cl.append(('accepted=>model-builds', E.TRUE))
+    return cl
+
+  def _build(self, C03, spec, c):
+    from vt import kerasc
+    pm, cf = load.mod('premade'), load.mod('configs')
+    mc = self._raw_config(cf, C03, spec)
+    cls = {'linear': pm.CalibratedLinear, 'lattice': pm.CalibratedLattice, 'ensemble': pm.CalibratedLatticeEnsemble}[spec['kind']]
+    tensors = C03._inputs_for(spec, None, {n['name']: 0 for n in spec['features'] if n['kind'] == 'cat'}, c)
+
+    def provider(layer, name, shape, dt, init, cons):
+      if not getattr(layer, '_vt_adding_trainable', True):
+        return None
+      return tfc.sym(shape, E.fresh_name('w'))
+
+    def inp(name, shape, dt):
+      for f in spec['features']:
+        if name is not None and name.endswith('_' + f['name']):
+          return tensors[f['name']]
+      raise tfc.NoContract('unexpected keras.Input %r' % (name,))
+    kerasc.WEIGHT_PROVIDER[0], kerasc.INPUT_PROVIDER[0] = provider, inp
+    try:
+      c2 = C.Ctx()     # obligations of the abstract stubs are C03's business, not this case's
+      with C.use(c2):
+        with C03._Stubs(c2, []):
+          cls(mc)
+    finally:
+      kerasc.WEIGHT_PROVIDER[0] = kerasc.INPUT_PROVIDER[0] = None
+
+  def _raw_config(self, cf, C03, spec):
+    feats = []
+    for f in spec['features']:
+      g = dict(f)
+      raw_kp = g.get('keypoints')
+      raw_mono = g.pop('raw_monotonicity', None)
+      if not isinstance(raw_kp, list) and raw_kp is not None:
+        g.pop('keypoints')
+      fc = C03.feature_configs(cf, [g])[0]
+      if not isinstance(raw_kp, list) and raw_kp is not None:
+        fc.pwl_calibration_input_keypoints = raw_kp
+      if raw_mono is not None:
+        fc.monotonicity = raw_mono
+      feats.append(fc)
+    kw = dict(spec.get('model', {}))
+    kw['feature_configs'] = None if spec.get('no_features') else feats
+    return {'linear': cf.CalibratedLinearConfig, 'lattice': cf.CalibratedLatticeConfig,
+            'ensemble': cf.CalibratedLatticeEnsembleConfig}[spec['kind']](**kw)
+
+
+CASES = {'config': ConfigCase(), 'synonym': SynonymCase(), 'premade': PremadeConfigCase()}
 
 
 def configs(tier, rng):
@@ -474,6 +606,46 @@ def configs(tier, rng):
   jobs.append(('synonym', dict(kind='kfl', variants=[
       dict(lattice_sizes=2, monotonicities=[1, 0], output_min=0.0, output_max=1.0),
       dict(lattice_sizes=2, monotonicities=['increasing', 'none'], output_min=0.0, output_max=1.0)])))
+  # ---- premade model configurations (malformed ones must be rejected by verify_config)
+  import props.C03 as C03
+  A, Bd, N = C03.NUM('a', 'increasing'), C03.NUM('b', 'decreasing'), C03.NUM('n', 'none')
+  Cc = C03.CAT('c', 3, [[0, 1]])
+  ok = dict(output_min=0.0, output_max=1.0, output_initialization=[0.0, 1.0])
+  pspecs = [
+      dict(kind='lattice', features=[A, Bd], model=dict(ok)),
+      dict(kind='lattice', features=[A, Bd], model=dict(ok, output_initialization='quantiles')),
+      dict(kind='lattice', features=[A, Bd], model=dict(ok, output_initialization=[0.0, 'x'])),
+      dict(kind='lattice', features=[dict(A, keypoints='quantiles'), Bd], model=dict(ok)),
+      dict(kind='lattice', features=[A, Bd], model=dict(ok), no_features=True),
+      dict(kind='linear', features=[A, dict(Cc, raw_monotonicity='increasing')], model=dict(ok, use_bias=False)),
+      dict(kind='linear', features=[A, dict(Cc, raw_monotonicity=[0, 1])], model=dict(ok, use_bias=False)),
+      dict(kind='linear', features=[A, dict(Cc, raw_monotonicity=[[0, 3]])], model=dict(ok, use_bias=False)),
+      dict(kind='linear', features=[A, dict(Cc, raw_monotonicity=[[0, 1.0]])], model=dict(ok, use_bias=False)),
+      dict(kind='linear', features=[A, dict(Cc, raw_monotonicity=[[0, 1], [1, 2]])], model=dict(ok, use_bias=False)),
+      dict(kind='lattice', features=[A, dict(Bd, lattice_size=3)], model=dict(ok, parameterization='kronecker_factored', num_terms=2)),
+      dict(kind='lattice', features=[A, dict(N, unimodality='valley', lattice_size=3)], model=dict(ok, parameterization='kronecker_factored')),
+      dict(kind='lattice', features=[A, dict(N, trust=[['a', 'edgeworth', 'positive']])], model=dict(ok, parameterization='kronecker_factored')),
+      dict(kind='lattice', features=[dict(A, dominates=['b']), C03.NUM('b', 'increasing')], model=dict(ok, parameterization='kronecker_factored')),
+      dict(kind='lattice', features=[A, Bd], model=dict(ok, parameterization='kronecker_factored', num_terms=2)),
+      dict(kind='ensemble', features=[A, Bd, N], model=dict(ok, lattices=[['a', 'b'], ['b', 'n']])),
+      dict(kind='ensemble', features=[A, Bd, N], model=dict(ok, lattices=[['a', 'b', 'n']])),
+      dict(kind='ensemble', features=[A, Bd, N], model=dict(ok, lattices='random')),
+      dict(kind='ensemble', features=[A, Bd, N], model=dict(ok, lattices=[['a', 'b'], 'bn'])),
+      dict(kind='ensemble', features=[A, Bd, N], model=dict(ok, lattices=[['a', 'b'], ['b', 3]])),
+      dict(kind='ensemble', features=[A, Bd, N], model=dict(ok, lattices=[['a', 'b'], 7])),
+      dict(kind='ensemble', features=[A, Bd, N], model=dict(ok, lattices='rtl_layer', num_lattices=2, lattice_rank=2)),
+      dict(kind='ensemble', features=[A, Bd, N], model=dict(ok, lattices='rtl_layer', num_lattices=None, lattice_rank=2)),
+      dict(kind='ensemble', features=[A, Bd, N], model=dict(ok, lattices='rtl_layer', num_lattices=1, lattice_rank=2)),
+      dict(kind='ensemble', features=[A, dict(Bd, lattice_size=3), N], model=dict(ok, lattices='rtl_layer', num_lattices=2, lattice_rank=2)),
+      dict(kind='ensemble', features=[A, Bd, dict(N, unimodality='peak', lattice_size=3)],
+           model=dict(ok, lattices='rtl_layer', num_lattices=2, lattice_rank=2)),
+      dict(kind='ensemble', features=[A, Bd, dict(N, trust=[['a', 'trapezoid', 'positive']])],
+           model=dict(ok, lattices='rtl_layer', num_lattices=2, lattice_rank=2)),
+      dict(kind='ensemble', features=[dict(A, dominates=['b']), C03.NUM('b', 'increasing'), N],
+           model=dict(ok, lattices='rtl_layer', num_lattices=2, lattice_rank=2)),
+  ]
+  for sp in pspecs:
+    jobs.append(('premade', dict(spec=sp)))
   out, seen = [], set()
   for j in jobs:
     key = json.dumps(j, sort_keys=True)
